@@ -37,6 +37,8 @@ use tu_verif::run::Run;
 
 const ALPHA: [&str; 3] = ["a", "b", " "];
 const CONTENT_ALPHA: [&str; 2] = ["a", "b"];
+/// phase I: symbols of 2 and 4 bytes, and a cluster of two code points without a composed form
+const WIDE_ALPHA: [&str; 4] = ["ä", "😀", "x\u{301}", " "];
 const BETAS: [f64; 3] = [0.5, 1.0, 2.0];
 const MODES: [&str; 3] = ["insertions", "deletions", "insertions_and_deletions"];
 const EPS: f64 = 1e-12;
@@ -707,7 +709,10 @@ impl Space {
         } else if n < self.end {
             let k = (n - self.g) as usize;
             json!({"phase": "G mean edit distance of two pairs", "first_pair": [&self.s2[k / self.s2.len()], &self.s2[k % self.s2.len()]], "second_pair": "every pair of strings with at most 2 symbols", "grid": "use_graphemes x normalized"})
-        } else if n < self.end + 200 {
+        } else if n >= self.end + sequences(2, run.pick(5, 6)).len() as u64 && n < self.end + (sequences(2, run.pick(5, 6)).len() + strings(&WIDE_ALPHA, run.pick(2, 3)).len()) as u64 {
+            let k = (n - self.end) as usize - sequences(2, run.pick(5, 6)).len();
+            json!({"phase": "I wide symbols", "input": strings(&WIDE_ALPHA, run.pick(2, 3))[k], "prediction_and_target": "every pair of strings over the wide alphabet", "grid": "spelling + 3 whitespace modes x use_graphemes x beta x sequence_averaged; mean (normalized) edit distance of (input, prediction)"})
+        } else if n < self.end + sequences(2, run.pick(5, 6)).len() as u64 {
             json!({"phase": "H merged and split words", "content_index": n - self.end, "input_and_prediction": "every pair of spacings of the content", "target": "every spacing (content up to 4 characters) or the input and the prediction", "grid": "use_graphemes x beta x sequence_averaged"})
         } else {
             json!({"error": "no such unit", "units": self.end})
@@ -817,6 +822,38 @@ fn main() {
                             eval_single(&mut run, Kind::Spelling, [i.as_str(), p.as_str(), t.as_str()], g, true);
                         }
                     }
+                }
+            }
+        }
+    }
+    // ---- phase I: the singletons of phase A and the single pairs of phase F over symbols that are
+    // not one byte / not one code point each (NFKC leaves all of them alone): a two-byte letter, a
+    // four-byte emoji, and a cluster of two code points that no normalisation composes. Units follow
+    // phase H's.
+    {
+        let contents_h = sequences(2, run.pick(5, 6)).len() as u64;
+        for sym in WIDE_ALPHA {
+            assert_eq!(text_utils::unicode::normalize(sym, text_utils::unicode::Normalization::NFKC, true), sym);
+        }
+        let wide = strings(&WIDE_ALPHA, run.pick(2, 3));
+        run.bounds.insert("wide_alphabet".into(), json!(WIDE_ALPHA));
+        run.bounds.insert("wide_strings".into(), json!(format!("{} strings with at most {} symbols: all triples as spelling / whitespace singletons, all ordered pairs for the mean edit distances", wide.len(), run.pick(2, 3))));
+        for (ii, i) in wide.iter().enumerate() {
+            if !run.unit(sp.end + contents_h + ii as u64) {
+                continue;
+            }
+            for p in &wide {
+                for t in &wide {
+                    let tr: Tr = [i, p, t];
+                    for g in [false, true] {
+                        eval_single(&mut run, Kind::Spelling, tr, g, true);
+                        for m in 0..3 {
+                            eval_single(&mut run, Kind::Whitespace(m), tr, g, true);
+                        }
+                    }
+                }
+                for g in [false, true] {
+                    check_med(&mut run, &[i.as_str()], &[p.as_str()], g);
                 }
             }
         }
